@@ -20,7 +20,7 @@ fn is_blank(b: u8) -> bool {
 }
 
 pub fn check_line(line: &str) -> Option<(String, String)> {
-    let r = guarded(|| tokenize(line));
+    let r = watch_text("line", line, || guarded(|| tokenize(line)));
     match r {
         Err(p) => Some((format!("panic {}", short_panic(&p)), format!("tokenize panicked: {}", p))),
         Ok(Ok(toks)) => {
